@@ -573,13 +573,10 @@ def main(run):
         stats["max_height"] = max(stats["max_height"], tree.height)
         nontrivial = any(isinstance(n, gp.Primitive) for n in nodes)
         run.note_case(case, nontrivial, sample=case if len(nodes) < 12 and stats["trees"] % 53 == 1 else None)
-        # --- printing
         st = guard(str, tree)
-        exp_str = printer(gp, nodes, spec)
         case["str"] = st[1] if len(str(st[1])) < 400 else str(st[1])[:400] + "..."
-        if st != ("ok", exp_str):
-            run.oracle_violation("str(tree) is not the prefix tree printed as name(a1, ..., an)", case,
-                                 observed={"str": st, "expected": exp_str})
+        if st[0] != "ok":
+            run.oracle_violation("str(tree) raised", case, observed=st)
             return
         s = st[1]
         # --- compile vs direct evaluation
@@ -609,6 +606,12 @@ def main(run):
                 runs.append((tup, "None"))
             else:
                 all_z = False
+        # --- printing: the string is the prefix tree written as nested calls (spacing is not part of the statement)
+        exp_str = printer(gp, nodes, spec)
+        if "".join(s.split()) != "".join(exp_str.split()):
+            run.oracle_violation("str(tree) is not the prefix tree printed as name(a1, ..., an)", case,
+                                 observed={"str": st, "expected": exp_str})
+            return
         # --- round trip through from_string
         rt = guard(gp.PrimitiveTree.from_string, s, spec.pset)
         stats["roundtrips"] += 1
